@@ -9,6 +9,7 @@ import (
 	_ "verif/checks/c04"
 	_ "verif/checks/c05"
 	_ "verif/checks/c07"
+	_ "verif/checks/c08"
 	_ "verif/checks/c15"
 	_ "verif/checks/c17"
 	_ "verif/checks/c18"
